@@ -175,6 +175,15 @@ fn one_run(seed: u64, run: u64, exhaustive_budgets: bool) -> RunResult {
     // a quarter of the programs come from the continuation generator
     let forms: Vec<String> = if run % 4 == 3 {
         crate::gen::g05::session(&mut wl).forms.iter().map(|f| f.text()).collect()
+    } else if run % 8 == 5 {
+        // objects that are mutated after their creation (pool operations of G14 / G15)
+        if run % 16 == 5 {
+            crate::gen::g14::G14::new(&mut wl).generate(8).0.iter().map(|f| f.text()).collect()
+        } else {
+            crate::gen::g15::G15::new(&mut wl).generate(8).0.iter().map(|f| f.text()).collect()
+        }
+    } else if run % 8 == 6 {
+        crate::gen::templates::mixed_session(&mut wl).0
     } else {
         let session = gen_g01_session(&mut wl, &opt);
         let mut forms: Vec<String> = session.forms.iter().map(|f| f.text()).collect();
